@@ -250,7 +250,8 @@ def scripts(maxlen):
 # ------------------------------------------------------------------------------ program family
 SIMPLE = ["x = x + 1", "y = e(x)", "x += y", "e(x)", "x, y = y, x", "x = 5 if c2() else 7", "x = (y := x + 2) + y", "e(1 if c2() and c3() else 2)",
           "x = e(1) + e(2) * e(3)", "pass", "z = x", "e(z)", "z", "x = g(x)", "z = e(x) < e(y) < e(3)", "x = -x", "y = (x, y)[c3()]"]
-CONDS = ["c0()", "not c0()", "c0() and c1()", "c0() or c1()", "x < 3", "c0() if c1() else c2()", "0 < x <= y", "not (c0() or x > 2)", "True", "False"]
+CONDS = ["c0()", "not c0()", "c0() and c1()", "c0() or c1()", "x < 3", "c0() if c1() else c2()", "0 < x <= y", "not (c0() or x > 2)", "True", "False",
+         "c0() or True", "c0() and False", "False or c1()", "c0() or c1() or True"]
 
 
 def _ind(lines, n=1):
@@ -303,6 +304,8 @@ FIXED = [
     ["x = e(1) if c0() else e(2)", "e(x)"],
     ["if e(1) < e(2) < e(0):", "    e(5)"],
     ["x = (c0() and c1()) or c2()", "e(x)"],
+    ["z = c0() or True", "e(z)", "z = c1() and False", "e(z)", "if c2() or c3() or True:", "    e(4)"],
+    ["while c0() and False:", "    e(1)", "e(2)"],
     ["xs = array(1, 2, 3)", "xs[e(1)] += e(5)", "e(xs[1])"],
     ["xs = array(1, 2, 3)", "for v in xs:", "    if v == 2:", "        continue", "    e(v)"],
     # nested subscripts with effectful indices: Python evaluates the target's indices left to right, once
